@@ -10,8 +10,10 @@ Sum4(x, y) == LET c1 == (x[1] + y[1]) \div 65536  c2 == (x[2] + y[2] + c1) \div 
 
 UpdateViol(e) ==
     LET lt == e.letter
-        v == CASE e.op = "set_mem_table" -> SetVerdict(lt.rids, lt.badfd)
-               [] e.op = "add_mem_reg" -> AddVerdict(table, lt.rid, lt.badfd)
+        \* a region whose user range ends exactly at 2^64 may be refused (TopOpen in MemTable.tla)
+        IsTop(r) == "top" \in DOMAIN pool[r + 1] /\ pool[r + 1].top
+        v == CASE e.op = "set_mem_table" -> TopOpen(SetVerdict(lt.rids, lt.badfd), \E i \in 1..Len(lt.rids) : IsTop(lt.rids[i]))
+               [] e.op = "add_mem_reg" -> TopOpen(AddVerdict(table, lt.rid, lt.badfd), IsTop(lt.rid))
                [] OTHER -> RemVerdict(table, lt.rid, lt.size_delta)
         acc == e.status = "ok"
         t2 == IF ~acc THEN table ELSE CASE e.op = "set_mem_table" -> SeqToSet(lt.rids) [] e.op = "add_mem_reg" -> table \cup {lt.rid} [] OTHER -> RemResult(table, lt.rid)
